@@ -245,7 +245,7 @@ def random_problem(rng, max_n=5, nbest_max=1, mixed_heads=False, multi=False, be
                 p.un[x].insert(rng.randint(0, len(p.un[x]) - 1), x)
     if beam and rng.random() < 0.7:
         p.use_beta = True
-        p.beta = rng.choice([0.5, 0.1, 0.01, 0.3, 1e-5, 1e-30])
+        p.beta = rng.choice([0.5, 0.1, 0.01, 0.3, 1e-5, 1e-30, 1.0, 2.0])      # beta >= 1: no tag passes, not even the best
     if beam and rng.random() < 0.3:
         # a word all of whose tags are very improbable: exp() underflows in float32
         t = rng.randrange(p.n)
